@@ -186,6 +186,37 @@ func matrixCorpora(thorough bool) ([]*shardCase, error) {
 			return
 		}
 		matrixShards = append(matrixShards, sc)
+		// the same compound corpus with the FIRST repository tombstoned (live repositories follow it)
+		tf := gen.CompoundCorpus()
+		for _, r := range tf {
+			r.Name = "u-" + r.Name
+			r.ID += 200
+		}
+		if pth, err = gen.WriteCompound(dir, tf...); err == nil {
+			err = index.SetTombstone(pth, tf[0].ID)
+		}
+		if err != nil {
+			matrixErr = err
+			return
+		}
+		tf[0].Tombstone = true
+		if sc, err = newShardCase("compound-tombstone-first", pth, tf...); err != nil {
+			matrixErr = err
+			return
+		}
+		matrixShards = append(matrixShards, sc)
+		// degenerate shards: only empty documents, a single document, a single empty document
+		degen := func(name string, id uint32, contents ...string) {
+			rp := &ref.Repo{Name: "degen/" + name, ID: id, Branches: []string{"HEAD"}}
+			for i, c := range contents {
+				rp.Docs = append(rp.Docs, &ref.Doc{Name: fmt.Sprintf("ab/abc%d.txt", i), Content: []byte(c), Branches: []string{"HEAD"}, Language: "Text"})
+			}
+			add("degen-"+name, false, rp)
+		}
+		degen("all-empty", 31, "", "", "")
+		degen("one-empty", 32, "")
+		degen("one", 33, "ab a\nbA")
+		degen("empty-and-not", 34, "", "abab", "", "é a\n")
 		// long documents: prefixes of 98..202 runes mixing 1/2/3-byte runes so that match offsets
 		// cross the 100-rune offset samples
 		long := &ref.Repo{Name: "long/repo", ID: 21, Branches: []string{"HEAD"}}
@@ -333,6 +364,10 @@ func matrixQueries(sc *shardCase, thorough bool) []query.Q {
 				qs = append(qs, &query.And{Children: []query.Q{s, t}}, &query.Or{Children: []query.Q{s, t}})
 			}
 		}
+	case strings.HasPrefix(sc.name, "degen-"):
+		qs = append(qs, gen.SubstringAtoms([]string{"a", "ab", "abc", "bA", "é", "txt", "abc1"}, gen.FieldModes)...)
+		qs = append(qs, gen.RegexpAtoms([]string{"a.", "^$", "a*", `\bab\b`, "(?s).*", "^", "$", "b|é", "abc[0-9]"}, gen.FieldModes)...)
+		qs = append(qs, &query.Const{Value: true}, &query.Not{Child: &query.Substring{Pattern: "ab"}}, &query.Branch{Pattern: "HEAD"}, &query.Language{Language: "Text"})
 	case sc.name == "punct":
 		var pats []string
 		for _, x := range matrixPunctPairs {
